@@ -1,5 +1,6 @@
 """C04 — packets are read from a byte stream exactly at APDU boundaries."""
 import rules_c16
+from report import Sub
 from mirlite import switch_target, callee, callee_res, ty_str, op_place
 from expr import show, walk, strip_ref
 from discharge import make_prover, VEx, INDEX, Lin, len_of, LEN_CALLS
@@ -219,6 +220,7 @@ def rest(ctx, chk, zvt, crates):
         rl = rules_c16.reader_leaves(d["deserialize"], crates)
         nk = lambda x: tuple((0, 0) if y is None else ((1, y) if isinstance(y, int) else (2, str(y))) for y in x)
         w = rules_c16.writer_forms(wl)
+        rules_c16.writer_value(Sub(chk, "C04-d", lambda r: r == "C16-b/writer-value"), "Adpu", d["serialize"])
         chk.require(w == sorted(rules_c16.SPEC["zvt_builder::length::Adpu"], key=nk), "C04-d/writer-header", "Adpu::serialize",
                     "writer header forms %s differ from the specification" % rules_c16.fmt_w(w), "direct <0xFF | 0xFF + LE u16", d["serialize"].sp())
         ext = [l for l in rl if l[2] == "extended"]
